@@ -67,6 +67,9 @@ type entry struct {
 	call   func(in input) error                         // nil = accepted, error = rejected
 	digest func() string                                // state digest for stateful entry points (nil: stateless)
 	serial bool                                         // entry must not run concurrently with others (it swaps process-wide seams)
+	// hangGroup: entry points that drive the same code underneath (e.g. the response cache). A hang there leaves a goroutine spinning and a lock held;
+	// once one hang of the group is confirmed, the entry points of the group stop feeding inputs (further expiries are only counted).
+	hangGroup string
 }
 
 type stats struct {
@@ -305,6 +308,7 @@ func (h *harness) one(e *entry, st *stats, in input) {
 		return
 	}
 	st.Inputs++
+	nth := st.Inputs // entry points may evaluate several inputs at a time (parallelEmit)
 	if in.valid {
 		st.Seeds++
 	}
@@ -383,7 +387,7 @@ func (h *harness) one(e *entry, st *stats, in input) {
 		}
 	}
 	h.r.Case(fingerprint, len(in.ops) > 0)
-	if len(in.ops) > 0 && st.Inputs%97 == 0 {
+	if len(in.ops) > 0 && nth%97 == 0 {
 		res := "accepted"
 		if o.err != nil {
 			res = "rejected: " + trunc([]byte(o.err.Error()), 160)
@@ -397,6 +401,12 @@ func (h *harness) confirmHang(e *entry, st *stats, in input) {
 	key := "C19/hang/" + e.name + "/" + in.class()
 	h.mu.Lock()
 	known := h.hangs[key]
+	if e.hangGroup != "" && h.hangs["group:"+e.hangGroup] {
+		known = true
+		st.mu.Lock()
+		st.aborted = true
+		st.mu.Unlock()
+	}
 	h.mu.Unlock()
 	if known {
 		return
@@ -434,10 +444,13 @@ func (h *harness) confirmHang(e *entry, st *stats, in input) {
 	}
 	h.mu.Lock()
 	h.hangs[key] = true
+	if e.hangGroup != "" {
+		h.hangs["group:"+e.hangGroup] = true
+	}
 	h.mu.Unlock()
 	st.mu.Lock()
 	st.Hangs++
-	if st.Hangs >= 2 {
+	if st.Hangs >= 2 || e.hangGroup != "" {
 		st.aborted = true // every confirmed hang leaves 4 spinning goroutines behind: stop feeding this entry
 	}
 	st.mu.Unlock()
